@@ -19,21 +19,47 @@ CHECK_SRC = '''
 def play(prob, calls):
     opt, d, act = build(prob, n_steps_max=5)
     notes = []
+    valid_from = 0          # rows below this index were logged against target values the user has changed since
     for c in calls:
         n0 = len(opt._log["penalty"])
+        flags0 = ("".join("y" if v.active else "n" for v in opt.vary), "".join("y" if t.active else "n" for t in opt.targets))
         try:
-            exec(c, dict(opt=opt, d=d))
+            exec(c, dict(opt=opt, d=d, prob=prob))
             ok = True
         except Exception as ex:
             ok = False
+        if "targets[0].value =" in c:
+            valid_from = len(opt._log["penalty"])
+        valid_from = min(valid_from, len(opt._log["penalty"]))
         if ok and c.startswith("opt.step(") and "take_best=False" not in c:
             # the point left in the container after a normally returning step(take_best=True)
             kn = knobs_of(d, prob)
             tact = [t.active for t in opt.targets]
             pend = penalty(prob, kn, tact)
             logged = opt._log["penalty"][n0:]        # the call logs its starting point first (row n0), then one row per step
-            notes.append(dict(call=c, end_penalty=pend, within=all(within_tol(prob, kn, tact)), logged=[float(x) for x in logged], n0=n0))
+            rows = [[float(x) for x in r] for r in opt._log["knobs"][n0:]]
+            flags_now = ("".join("y" if v.active else "n" for v in opt.vary), "".join("y" if t.active else "n" for t in opt.targets))
+            notes.append(dict(call=c, end_penalty=pend, within=all(within_tol(prob, kn, tact)), logged=[float(x) for x in logged], n0=n0,
+                              end_knobs=[float(x) for x in kn], rows=rows, flags_before=flags0, flags_after=flags_now,
+                              plain="enable" not in c and "disable" not in c))
+    opt._rac_valid_from = valid_from
     return opt, d, notes
+
+def take_best_violation(nt):
+    """-> description if a normally returning step(take_best=True) broke its contract, else None"""
+    if nt["within"] or not nt["logged"]:
+        return None
+    best = min(nt["logged"])
+    if nt["end_penalty"] > best * (1 + 1e-9) + 1e-300:
+        return f"ended at penalty {nt['end_penalty']} while the minimum logged during the call is {best}"
+    # the end point must be one of the points logged DURING the call (a minimal one), not an older one
+    cands = [r for r, p in zip(nt["rows"], nt["logged"]) if p <= best * (1 + 1e-9) + 1e-300]
+    if not any(all(abs(a - b) <= 1e-12 * max(1.0, abs(b)) for a, b in zip(nt["end_knobs"], r)) for r in cands):
+        return f"ended on knobs {nt['end_knobs']}, which is none of the minimum-penalty points logged during the call {cands[:3]}"
+    if nt["plain"] and nt["flags_before"] != nt["flags_after"]:
+        return f"changed the active flags from {nt['flags_before']} to {nt['flags_after']}"
+    return None
+
 
 def check_log(prob, opt, d):
     bad = []
@@ -43,9 +69,10 @@ def check_log(prob, opt, d):
         row = dict(knobs=[float(x) for x in opt._log["knobs"][i]], va=opt._log["vary_active"][i], ta=opt._log["target_active"][i],
                    pen=float(opt._log["penalty"][i]), tars=[float(x) for x in np.atleast_1d(opt._log["targets"][i])])
         tact = [c == "y" for c in row["ta"]]
+        current = i >= getattr(opt, "_rac_valid_from", 0)
         # independent evaluation at the logged knobs
         pen = penalty(prob, row["knobs"], tact)
-        if abs(pen - row["pen"]) > 1e-9 * max(1.0, abs(pen)):
+        if current and abs(pen - row["pen"]) > 1e-9 * max(1.0, abs(pen)):
             bad.append(("row penalty", i, row["pen"], pen))
             continue
         want_t = [float(x) for x in user(prob, row["knobs"])]
@@ -65,13 +92,14 @@ def check_log(prob, opt, d):
             bad.append(("reload knobs", i, kn, row["knobs"]))
         elif va != row["va"] or ta != row["ta"]:
             bad.append(("reload flags", i, (va, ta), (row["va"], row["ta"])))
-        elif abs(float(opt._log["penalty"][-1]) - row["pen"]) > 1e-9 * max(1.0, abs(row["pen"])):
+        elif abs(float(opt._log["penalty"][-1]) - pen) > 1e-9 * max(1.0, abs(pen)):
             bad.append(("reload re-evaluation", i, float(opt._log["penalty"][-1]), row["pen"]))
     return bad
 '''
 exec(G.SRC + CHECK_SRC)
 
-CALLS = ["opt.step(1)", "opt.step(3)", "opt.step(2, take_best=False)", "opt.solve()", "opt.tag('x')", "opt.reload(0)",
+CALLS = ["opt.step(1)", "opt.step(3)", "dict.__setitem__(d, 'k0', float(d['k0']) + 0.37)", "opt.targets[0].value = opt.targets[0].value + 0.8; prob['val'][0] = float(opt.targets[0].value)",
+         "dict.__setitem__(d, 'k0', float(d['k0']) - 1.2)", "opt.step(2, take_best=False)", "opt.solve()", "opt.tag('x')", "opt.reload(0)",
          "opt.reload(len(opt._log['penalty']) - 1)", "opt.reload(tag='x')", "opt.enable(vary=True)", "opt.disable(vary=[0])",
          "opt.disable(target=[0])", "opt.enable(target=True)", "opt.step(2, broyden=True)", "opt.clear_log()",
          "opt.disable(vary=[len(opt.vary) - 1])", "opt.step(1, enable_vary=[0])"]
@@ -93,23 +121,18 @@ def main():
         if len(prob["k0"]) > 1 and rac.rng.random() < 0.5:
             prob["kact"][-1] = False
         calls = [rac.rng.choice(CALLS) for _ in range(rac.rng.randint(1, 6))]
+        prob0 = copy.deepcopy(prob)
         try:
             opt, d, notes = play(prob, calls)
         except Exception as ex:     # noqa
             continue
-        scr = PRELUDE + G.SRC + CHECK_SRC + f"prob = {prob!r}\ncalls = {calls!r}\nopt, d, notes = play(prob, calls)\n"
+        scr = PRELUDE + G.SRC + CHECK_SRC + f"prob = {prob0!r}\ncalls = {calls!r}\nopt, d, notes = play(prob, calls)\n"
         rac.case(json.dumps(prob) + str(calls), nontrivial=len(opt._log["penalty"]) > 1,
                  sample=dict(fam=prob["fam"], calls=calls, rows=len(opt._log["penalty"])))
-        tb = None
-        for nt in notes:
-            best = min(nt["logged"]) if nt["logged"] else None
-            if not nt["within"] and best is not None and nt["end_penalty"] > best * (1 + 1e-9) + 1e-300:
-                tb = nt
-                break
+        tb = next(((nt, take_best_violation(nt)) for nt in notes if take_best_violation(nt)), None)
         if tb is not None:
-            rac.fail(f"take_best {n}", f"C15 {tb['call']} returned normally outside tolerance at penalty {tb['end_penalty']}, while the minimum "
-                     f"logged during that call is {min(tb['logged'])} (logged: {tb['logged'][:6]})",
-                     scr + "for nt in notes:\n    assert nt['within'] or not nt['logged'] or nt['end_penalty'] <= min(nt['logged']) * (1 + 1e-9), nt\n", "Optimize.step")
+            rac.fail(f"take_best {n}", f"C15 {tb[0]['call']} returned normally outside tolerance and {tb[1]}",
+                     scr + "for nt in notes:\n    assert take_best_violation(nt) is None, (nt['call'], take_best_violation(nt))\n", "Optimize.step")
             continue
         bad = check_log(prob, opt, d)
         if bad:
@@ -130,10 +153,10 @@ def main():
             continue
         scr = PRELUDE + G.SRC + CHECK_SRC + f"prob = {prob!r}\ncalls = {calls!r}\nopt, d, notes = play(prob, calls)\n"
         rac.case(name, sample=name)
-        tb = next((nt for nt in notes if not nt["within"] and nt["logged"] and nt["end_penalty"] > min(nt["logged"]) * (1 + 1e-9)), None)
+        tb = next(((nt, take_best_violation(nt)) for nt in notes if take_best_violation(nt)), None)
         if tb:
-            rac.fail("crafted " + name, f"C15 {name}: {tb['call']} ended at penalty {tb['end_penalty']} > minimum logged {min(tb['logged'])}",
-                     scr + "for nt in notes:\n    assert nt['within'] or nt['end_penalty'] <= min(nt['logged']) * (1 + 1e-9), nt\n", "Optimize.step")
+            rac.fail("crafted " + name, f"C15 {name}: {tb[0]['call']} {tb[1]}",
+                     scr + "for nt in notes:\n    assert take_best_violation(nt) is None, (nt['call'], take_best_violation(nt))\n", "Optimize.step")
             continue
         bad = check_log(prob, opt, d)
         if bad:
